@@ -129,7 +129,11 @@ class File(Resource):
     def read(self):
         data = self.read_bytes()
         try:
-            content, self.newlines = fscommands.file_data_to_unicode(data)
+            content, newlines = fscommands.file_data_to_unicode(data)
+            if self.newlines is None or "\n" in content:
+                # a file without any line break says nothing about its newline
+                # convention: keep the one this object has seen before
+                self.newlines = newlines
             return content
         except UnicodeDecodeError as e:
             raise exceptions.ModuleDecodeError(self.path, e.reason)
